@@ -14,7 +14,9 @@ pub struct Meta {
     pub id: &'static str,
 }
 
-const CALLS: u64 = 60_000;
+// 4,000 slices of 5,000 instructions: enough for every terminating generated program; a run that
+// needs more is discarded (never judged), and stays far below the CPU watchdog
+const CALLS: u64 = 4_000;
 
 fn typed(lines: &[String]) -> Session {
     let mut s = Session::new();
@@ -641,13 +643,16 @@ impl Prop for Meta {
     fn cases(&self, tier: Tier) -> u64 {
         let q = match self.id {
             "C13" => 800,
-            "C04" => 4000,
             _ => 16_000,
         };
         match tier {
             Tier::Quick => q,
             Tier::Thorough => q * 60,
         }
+    }
+
+    fn cpu_budget_s(&self) -> u64 {
+        90
     }
 
     fn rule(&self) -> &'static str {
